@@ -13,6 +13,7 @@
  */
 #include "evdns.c"
 #include "dnspkt_common.h"
+#include <stddef.h>
 
 /* ------------------------------------------------------------------ */
 /* grammar                                                              */
@@ -77,8 +78,13 @@ static void emit_name(struct bctx *b, int pos, const uint8_t *wire, size_t wlen)
 
 static size_t text_wire(const char *t, uint8_t *out)
 {
-	struct dp_buf *tmp = malloc(sizeof *tmp); size_t n;
-	tmp->n = 0; dp_name(tmp, t); n = tmp->n; memcpy(out, tmp->b, n); free(tmp);
+	size_t n = 0;
+	while (*t) {
+		const char *d = strchr(t, '.'); size_t l = d ? (size_t)(d - t) : strlen(t);
+		if (l) { out[n++] = (uint8_t)l; memcpy(out + n, t, l); n += l; }
+		t += l; if (*t == '.') t++;
+	}
+	out[n++] = 0;
 	return n;
 }
 
@@ -251,22 +257,23 @@ static const char *cls_name[] = { "short", "foreign-id", "not-a-response", "ques
 struct nm { char text[320]; size_t len; uint32_t ttl; int has_nul; };
 struct refres {
 	int cls; uint16_t flags;
-	int n_main, zero_len_main; uint8_t addr[4096]; size_t addr_len; uint32_t min_ttl;
-	int n_ptr; struct nm ptr[8];
-	int n_cname; struct nm cn[8];
-	int answers_complete, stop_err;
+	int n_main, zero_len_main; size_t addr_len; uint32_t min_ttl;
+	int n_ptr, n_cname, answers_complete, stop_err;
+	uint8_t addr[4096];
+	struct nm ptr[8];
+	struct nm cn[8];
 };
 
 static void ref_eval(const uint8_t *msg, size_t len, const struct qinfo *q, int policy_b, struct refres *o)
 {
 	static struct dw_reader rd; struct dw_header h; static struct dw_question qq; static struct dw_rr rr; static struct dw_name want, tgt;
-	memset(o, 0, sizeof *o); o->min_ttl = 0xffffffffu;
+	memset(o, 0, offsetof(struct refres, addr)); o->min_ttl = 0xffffffffu;
 	dw_reader_init(&rd, msg, len);
 	if (dw_read_header(&rd, &h) != DW_OK) { o->cls = R_SHORT; return; }
 	o->flags = h.flags;
 	if (h.id != q->id) { o->cls = R_FOREIGN_ID; return; }
 	if (!(h.flags & DW_F_QR)) { o->cls = R_NOT_RESPONSE; return; }
-	{ struct dw_reader r2; dw_reader_init(&r2, q->qname, q->qlen); size_t nx; dw_name_decode(&r2, 0, &nx, &want, 0); }
+	{ static struct dw_reader r2; dw_reader_init(&r2, q->qname, q->qlen); size_t nx; dw_name_decode(&r2, 0, &nx, &want, 0); }
 	int match = 0;
 	for (unsigned i = 0; i < h.qd; i++) {
 		if (dw_read_question(&rd, &qq) != DW_OK) { o->cls = R_QMALFORMED; return; }
@@ -329,6 +336,8 @@ struct cx {
 	struct event_base *eb; struct evdns_base *dns;
 	int usock, lsock, csock; struct sockaddr_in sin, peer;
 	struct qinfo q; uint8_t query[700]; size_t qlen;
+	int events0;            /* events in the event_base when the resolver is idle */
+	long env_live, base_live;   /* allocation baselines: no resolver / idle resolver */
 };
 
 static int cx_accept(struct cx *c)
@@ -340,18 +349,63 @@ static int cx_accept(struct cx *c)
 	return c->csock >= 0 ? 0 : -1;
 }
 
-static int cx_setup(struct cx *c, int qt, int cfg, int mode)
+/* per-item environment: the event_base and the harness-side sockets are created once per item
+ * and are inert between executions (checked: no event left after evdns_base_free); everything
+ * the property talks about (evdns_base, nameserver, request, TCP connection) is per execution. */
+static struct { struct event_base *eb; int usock, lsock; struct sockaddr_in sin; } g_env = { NULL, -1, -1, {0} };
+
+static int env_open(int mode)
 {
-	memset(c, 0, sizeof *c); c->usock = c->lsock = c->csock = -1;
-	vclock_reset(); dp_rng_reset(); memset(&g_log, 0, sizeof g_log); g_qt = qt;
-	c->eb = event_base_new();
-	if (!c->eb) return -1;
+	g_env.usock = g_env.lsock = -1;
+	g_env.eb = event_base_new();
+	if (!g_env.eb) return -1;
+	if (mode == M_TCP) g_env.lsock = dp_tcp_listener(&g_env.sin); else g_env.usock = dp_udp_bound(&g_env.sin);
+	return (g_env.lsock < 0 && g_env.usock < 0) ? -1 : 0;
+}
+static void env_close(void)
+{
+	if (g_env.eb) event_base_free(g_env.eb);
+	if (g_env.lsock >= 0) close(g_env.lsock);
+	if (g_env.usock >= 0) close(g_env.usock);
+	g_env.eb = NULL; g_env.usock = g_env.lsock = -1;
+}
+
+/* (re)create the resolver under test: evdns_base + its single nameserver */
+static int cx_base_new(struct cx *c, int cfg)
+{
+	c->eb = g_env.eb; c->usock = g_env.usock; c->lsock = g_env.lsock; c->sin = g_env.sin; c->csock = -1;
 	c->dns = evdns_base_new(c->eb, 0);
 	if (!c->dns) return -1;
-	if (mode == M_TCP) c->lsock = dp_tcp_listener(&c->sin); else c->usock = dp_udp_bound(&c->sin);
-	if (c->lsock < 0 && c->usock < 0) return -1;
 	if (evdns_base_nameserver_sockaddr_add(c->dns, (struct sockaddr *)&c->sin, sizeof c->sin, 0) != 0) return -1;
 	evdns_base_set_option(c->dns, "randomize-case:", (cfg & 2) ? "1" : "0");
+	c->events0 = -1;
+	return 0;
+}
+
+/* Is the resolver indistinguishable from a freshly built one?  Every field that the
+ * request / reply / nameserver code reads is compared with its initial value; only then
+ * may the next execution of the same item reuse it (otherwise it is rebuilt). */
+static int cx_pristine(struct cx *c)
+{
+	struct evdns_base *b = c->dns; struct nameserver *ns;
+	if (!b || c->csock >= 0) return 0;
+	if (b->global_requests_inflight || b->global_requests_waiting || b->req_waiting_head) return 0;
+	for (int i = 0; i < b->n_req_heads; i++) if (b->req_heads[i]) return 0;
+	ns = b->server_head;
+	if (!ns || ns->next != ns || ns->prev != ns || b->global_good_nameservers != 1) return 0;
+	if (ns->state != 1 || ns->failed_times || ns->timedout || ns->choked || ns->write_waiting || ns->probe_request || ns->connection || ns->requests_inflight) return 0;
+	if (evtimer_pending(&ns->timeout_event, NULL)) return 0;
+	if (b->global_search_state || !TAILQ_EMPTY(&b->hostsdb) || !SPLAY_EMPTY(&b->cache_root)) return 0;
+	if (event_base_get_num_events(c->eb, EVENT_BASE_COUNT_ADDED | EVENT_BASE_COUNT_ACTIVE) != c->events0) return 0;
+	return 1;
+}
+
+/* issue the request and read the query back from the wire */
+static int cx_request(struct cx *c, int qt, int cfg, int mode)
+{
+	dp_rng_reset(); memset(&g_log, 0, sizeof g_log); g_qt = qt;
+	if (c->usock >= 0) { uint8_t junk[64]; while (recv(c->usock, junk, sizeof junk, 0) >= 0) MC_COUNT("harness_stale_datagram"); }   /* nothing may be left over */
+	if (c->events0 < 0) { event_base_loop(c->eb, EVLOOP_NONBLOCK); c->events0 = event_base_get_num_events(c->eb, EVENT_BASE_COUNT_ADDED | EVENT_BASE_COUNT_ACTIVE); }
 	int flags = DNS_QUERY_NO_SEARCH | ((cfg & 1) ? DNS_CNAME_CALLBACK : 0) | (mode == M_TCP ? DNS_QUERY_USEVC : 0);
 	dp_rng_push_id(0x1234); if (cfg & 2) dp_rng_push_fill(0x5a);
 	struct evdns_request *h;
@@ -360,7 +414,6 @@ static int cx_setup(struct cx *c, int qt, int cfg, int mode)
 	else if (qt == QT_AAAA) h = evdns_base_resolve_ipv6(c->dns, NAME_FWD, flags, resolve_cb, NULL);
 	else h = evdns_base_resolve_reverse(c->dns, &in, flags, resolve_cb, NULL);
 	if (!h) return -2;
-	/* read the query from the wire */
 	if (mode == M_TCP) {
 		if (cx_accept(c) < 0) return -3;
 		size_t got = 0; uint8_t tmp[800];
@@ -375,8 +428,11 @@ static int cx_setup(struct cx *c, int qt, int cfg, int mode)
 		c->qlen = got - 2; memcpy(c->query, tmp + 2, c->qlen);
 	} else {
 		socklen_t sl = sizeof c->peer;
-		if (!dp_wait_fd(c->usock, POLLIN, 2000)) return -5;
 		ssize_t r = recvfrom(c->usock, c->query, sizeof c->query, 0, (struct sockaddr *)&c->peer, &sl);
+		if (r < 0 && errno == EAGAIN) {
+			if (!dp_wait_fd(c->usock, POLLIN, 2000)) return -5;
+			sl = sizeof c->peer; r = recvfrom(c->usock, c->query, sizeof c->query, 0, (struct sockaddr *)&c->peer, &sl);
+		}
 		if (r < 12) return -6;
 		c->qlen = (size_t)r;
 	}
@@ -389,14 +445,19 @@ static int cx_setup(struct cx *c, int qt, int cfg, int mode)
 	return 0;
 }
 
-static void cx_teardown(struct cx *c)
+/* destroy the resolver; afterwards the event_base must be empty */
+static void cx_base_free(struct cx *c)
 {
-	if (c->eb && c->dns) event_base_loop(c->eb, EVLOOP_NONBLOCK);
-	if (c->dns) evdns_base_free(c->dns, 0);
-	if (c->eb) { event_base_loop(c->eb, EVLOOP_NONBLOCK); event_base_free(c->eb); }
+	if (!c->dns) return;
+	event_base_loop(c->eb, EVLOOP_NONBLOCK);
+	evdns_base_free(c->dns, 0);
+	c->dns = NULL;
+	if (event_base_get_num_events(c->eb, EVENT_BASE_COUNT_ADDED | EVENT_BASE_COUNT_ACTIVE) || c->lsock >= 0) event_base_loop(c->eb, EVLOOP_NONBLOCK);
+	if (event_base_get_num_events(c->eb, EVENT_BASE_COUNT_ADDED | EVENT_BASE_COUNT_ACTIVE)) event_base_loop(c->eb, EVLOOP_NONBLOCK);
+	int left = event_base_get_num_events(c->eb, EVENT_BASE_COUNT_ADDED | EVENT_BASE_COUNT_ACTIVE);
+	if (left) mc_fail("C33/events-left-after-free", "%d event(s) still added/active in the event_base after evdns_base_free", left);
 	if (c->csock >= 0) close(c->csock);
-	if (c->lsock >= 0) close(c->lsock);
-	if (c->usock >= 0) close(c->usock);
+	c->csock = -1;
 }
 
 static int ns_tcp_fd(struct cx *c)
@@ -533,41 +594,58 @@ static void judge(const struct cx *c, int cfg, const struct spec *s, const uint8
 }
 
 /* one execution: fresh resolver, pending request, deliver msg[0..len), judge, hygiene */
+static struct cx g_cx;
+
+static void report_leak(long leaked, int cfg, const struct dp_buf *full_msg, size_t len, const struct qinfo *q, int delivered, const char *when)
+{
+	static struct refres RA; ref_eval(full_msg->b, len, q, 1, &RA);
+	const char *k = "C33/leak/other";
+	if ((cfg & 1) && RA.cls == R_USABLE && RA.n_cname >= 2) k = "C33/leak/cname-overwritten-by-second-cname";
+	else if ((cfg & 1) && RA.cls == R_USABLE && RA.n_cname >= 1 && !delivered) k = "C33/leak/cname-on-error-path";
+	mc_fail(k, "%s: %ld allocation(s) still live %s", g_ctx, leaked, when);
+}
+
+/* one execution: pending request on a pristine resolver, deliver msg[0..len), judge, hygiene */
 static void run_exec(const struct spec *s, int cfg, int mode, const struct dp_buf *full_msg, size_t len, size_t cut1, size_t cut2, const struct qinfo *predicted)
 {
-	static struct cx c;
-	long live0 = mcx_alloc_live();
-	int rc = cx_setup(&c, s->qt, cfg, mode);
-	if (rc) { mc_fail("harness:setup", "%s: cx_setup rc=%d errno=%s", g_ctx, rc, strerror(errno)); cx_teardown(&c); return; }
-	if (predicted && (predicted->id != c.q.id || predicted->qlen != c.q.qlen || memcmp(predicted->qname, c.q.qname, c.q.qlen)))
+	struct cx *c = &g_cx;
+	if (!c->dns) {
+		c->env_live = mcx_alloc_live();
+		if (cx_base_new(c, cfg)) { mc_fail("harness:setup", "%s: cannot build the resolver: %s", g_ctx, strerror(errno)); cx_base_free(c); return; }
+		c->base_live = mcx_alloc_live();
+		MC_COUNT("resolvers_built");
+	}
+	int rc = cx_request(c, s->qt, cfg, mode);
+	if (rc) { mc_fail("harness:setup", "%s: cx_request rc=%d errno=%s", g_ctx, rc, strerror(errno)); cx_base_free(c); return; }
+	if (predicted && (predicted->id != c->q.id || predicted->qlen != c->q.qlen || memcmp(predicted->qname, c->q.qname, c->q.qlen)))
 		mc_fail("harness:query-prediction", "%s: transmitted query differs from the predicted one", g_ctx);
 	MC_COUNT("executions");
-	cx_deliver(&c, mode, full_msg->b, len, cut1, cut2);
+	cx_deliver(c, mode, full_msg->b, len, cut1, cut2);
 	int full = len == full_msg->n;
-	judge(&c, cfg, s, full_msg->b, len, full);
+	judge(c, cfg, s, full_msg->b, len, full);
 	int delivered = g_log.n > 0 && g_log.r[0].result == 0;
 	/* a reply that was ignored must leave the request usable: follow up with the canonical answer */
 	if (mode != M_TCP && g_log.n == 0 && full) {
-		static struct refres R; ref_eval(full_msg->b, len, &c.q, 0, &R);
+		static struct refres R; ref_eval(full_msg->b, len, &c->q, 0, &R);
 		if (R.cls == R_SHORT || R.cls == R_FOREIGN_ID || R.cls == R_NOT_RESPONSE) {
 			static struct dp_buf v; struct spec canon; memset(&canon, 0, sizeof canon); canon.qt = s->qt; canon.a = 2; canon.canon = 1;
-			build_message(&canon, &c.q, &v);
-			cx_deliver(&c, mode, v.b, v.n, 0, 0);
+			build_message(&canon, &c->q, &v);
+			cx_deliver(c, mode, v.b, v.n, 0, 0);
 			MC_COUNT("oracle_followup_after_ignored");
 			if (g_log.n == 0 || g_log.r[0].result != 0) mc_fail("C33/valid-reply-after-ignored-not-delivered", "%s: canonical reply after an ignored (%s) one gave %s", g_ctx, cls_name[R.cls], g_log.n ? "an error" : "no callback");
-			else judge(&c, cfg, &canon, v.b, v.n, 1);
+			else judge(c, cfg, &canon, v.b, v.n, 1);
 		}
 	}
-	static struct refres RA; ref_eval(full_msg->b, len, &c.q, 1, &RA);
-	cx_teardown(&c);
-	long leaked = mcx_alloc_live() - live0;
 	MC_COUNT("oracle_leak_checked");
-	if (leaked) {
-		const char *k = "C33/leak/other";
-		if ((cfg & 1) && RA.cls == R_USABLE && RA.n_cname >= 2) k = "C33/leak/cname-overwritten-by-second-cname";
-		else if ((cfg & 1) && RA.cls == R_USABLE && RA.n_cname >= 1 && !delivered) k = "C33/leak/cname-on-error-path";
-		mc_fail(k, "%s: %ld allocation(s) live after evdns_base_free + event_base_free", g_ctx, leaked);
+	if (mode != M_TCP && cx_pristine(c) && !mc_failed()) {
+		long leaked = mcx_alloc_live() - c->base_live;
+		if (!leaked) { MC_COUNT("resolver_reused"); return; }
+		report_leak(leaked, cfg, full_msg, len, &c->q, delivered, "with the request finished and the resolver idle");
 	}
+	struct qinfo qcopy = c->q;
+	cx_base_free(c);
+	long leaked = mcx_alloc_live() - c->env_live;
+	if (leaked) report_leak(leaked, cfg, full_msg, len, &qcopy, delivered, "after evdns_base_free");
 }
 
 /* ------------------------------------------------------------------ */
@@ -689,6 +767,14 @@ static void item_fn(uint64_t idx)
 	pq = &q;
 	build_message(s, &q, &w);
 	describe(s, it->cfg, it->mode, d, sizeof d);
+	long item_live0 = mcx_alloc_live();
+	if (env_open(it->mode) < 0) { mc_fail("harness:env", "%s: cannot create event_base/sockets: %s", d, strerror(errno)); env_close(); return; }
+	vclock_reset(); memset(&g_cx, 0, sizeof g_cx); g_cx.csock = -1;
+	{	/* warm-up execution (not judged): sizes the event_base's lazily allocated tables */
+		static struct dp_buf v; struct spec canon; memset(&canon, 0, sizeof canon); canon.qt = s->qt; canon.a = 1;
+		if (cx_base_new(&g_cx, it->cfg) == 0 && cx_request(&g_cx, s->qt, it->cfg, it->mode) == 0) { build_message(&canon, &g_cx.q, &v); cx_deliver(&g_cx, it->mode, v.b, v.n, 0, 0); }
+		cx_base_free(&g_cx);
+	}
 	if (it->plan == 0) { snprintf(g_ctx, sizeof g_ctx, "%s len=%zu", d, w.n); run_exec(s, it->cfg, it->mode, &w, w.n, 0, 0, pq); }
 	else if (it->plan == 1) {
 		for (size_t L = 0; L <= w.n; L++) { snprintf(g_ctx, sizeof g_ctx, "%s prefix=%zu/%zu", d, L, w.n); run_exec(s, it->cfg, it->mode, &w, L, 0, 0, pq); }
@@ -705,6 +791,9 @@ static void item_fn(uint64_t idx)
 	mc_nontrivial(h);
 	mc_observe("%s len=%zu -> %d callback(s)", d, w.n, g_log.n);
 	for (int i = 0; i < g_log.n && i < 2; i++) mc_observe(" [result=%d type=%d count=%d ttl=%d %s]", g_log.r[i].result, g_log.r[i].type, g_log.r[i].count, g_log.r[i].ttl, g_log.r[i].name);
+	cx_base_free(&g_cx);
+	env_close();
+	if (mcx_alloc_live() != item_live0) mc_fail("C33/leak/item", "%s: %ld allocation(s) live after the item's event_base was freed", d, mcx_alloc_live() - item_live0);
 	if (mcx_fd_signature() != fd0) mc_fail("C33/fdleak", "%s: fd table differs after the item", d);
 }
 
@@ -712,12 +801,13 @@ static void init(void)
 {
 	mcx_alloc_install();
 	event_set_log_callback(dp_quiet_log);
-	/* warm-up: one full cycle so that one-time library allocations are not counted as leaks */
-	static struct cx c;
-	if (cx_setup(&c, QT_A, 3, M_UDP) == 0) { static struct dp_buf v; struct spec canon; memset(&canon, 0, sizeof canon); canon.a = 1; build_message(&canon, &c.q, &v); cx_deliver(&c, M_UDP, v.b, v.n, 0, 0); }
-	cx_teardown(&c);
-	if (cx_setup(&c, QT_A, 3, M_TCP) == 0) { static struct dp_buf v; struct spec canon; memset(&canon, 0, sizeof canon); canon.a = 1; build_message(&canon, &c.q, &v); cx_deliver(&c, M_TCP, v.b, v.n, 0, 0); }
-	cx_teardown(&c);
+	/* warm-up: full cycles so that one-time library allocations are not counted as leaks */
+	static struct dp_buf v; struct spec canon; memset(&canon, 0, sizeof canon); canon.a = 1;
+	for (int mode = M_UDP; mode <= M_TCP; mode++) {
+		memset(&g_cx, 0, sizeof g_cx); g_cx.csock = -1;
+		if (env_open(mode) == 0 && cx_base_new(&g_cx, 3) == 0 && cx_request(&g_cx, QT_A, 3, mode) == 0) { build_message(&canon, &g_cx.q, &v); cx_deliver(&g_cx, mode, v.b, v.n, 0, 0); }
+		cx_base_free(&g_cx); env_close();
+	}
 }
 
 int main(int argc, char **argv)
